@@ -13,6 +13,7 @@ Definition dispatch (prop : string) (c : sexp) : sexp :=
   else if String.eqb prop "C15" then G15.run c
   else if String.eqb prop "C18" then G18.run c
   else if String.eqb prop "C03" then G03.run c
+  else if String.eqb prop "C03nf" then G03.run_nf c
   else if String.eqb prop "C07" then G07.run c
   else if String.eqb prop "C10" then G10.run c
   else if String.eqb prop "C14" then G14.run_payload c
